@@ -338,7 +338,7 @@ func (w *c18World) teardownNow() {
 }
 
 // propC18 interprets one operation sequence.
-func propC18(c *vs.Case, nSubs, nRes, length int) error {
+func propC18(c *vs.Case, nSubs, nRes, length int, heavyOps bool) error {
 	w, err := newC18World()
 	if err != nil {
 		return fmt.Errorf("harness: %v", err)
@@ -542,10 +542,77 @@ func propC18(c *vs.Case, nSubs, nRes, length int) error {
 				}})
 			}
 		}
+		for _, res := range c18Resources[:nRes] {
+			res := res
+			k0, k1 := "s0/"+res, "s1/"+res
+			if !heavyOps || w.openCount(res) != 0 || hidden[c18Name(res)] || w.subs[k0] != nil || w.subs[k1] != nil {
+				continue
+			}
+			ops = append(ops, op{"two subscribers arrive while the first list of " + res + " is being delivered", func() error {
+				d := w.def(res)
+				riA, err := w.factory.Resource(d.APIVersion(), c18Name(res))
+				if err != nil {
+					return fmt.Errorf("harness: %v", err)
+				}
+				hid++
+				hA := &c18SlowHandler{c18Handler: &c18Handler{id: fmt.Sprintf("h%d:%s", hid, k0), name: c18Name(res), apiVersion: c18APIVersion(res)}, entered: make(chan struct{}), release: make(chan struct{})}
+				doneA := make(chan struct{})
+				go func() {
+					// usually nothing is cached yet and this returns at once; if the list was faster, the
+					// replay itself blocks in A's handler, which serves the purpose just as well
+					defer close(doneA)
+					riA.Informer().AddEventHandler(hA)
+				}()
+				w.subs[k0] = &c18Sub{ri: riA, handlers: []*c18Handler{hA.c18Handler}}
+				inList := false
+				select {
+				case <-hA.entered: // A's handler sits in the first notification of the initial list
+					inList = true
+				case <-time.After(5 * time.Second):
+				}
+				riB, err := w.factory.Resource(d.APIVersion(), c18Name(res))
+				if err != nil {
+					close(hA.release)
+					return fmt.Errorf("harness: %v", err)
+				}
+				hid++
+				hB := &c18Handler{id: fmt.Sprintf("h%d:%s", hid, k1), name: c18Name(res), apiVersion: c18APIVersion(res)}
+				done := make(chan struct{})
+				go func() {
+					defer close(done)
+					riB.Informer().AddEventHandler(hB)
+				}()
+				time.Sleep(5 * time.Millisecond)
+				close(hA.release)
+				for _, ch := range []chan struct{}{doneA, done} {
+					select {
+					case <-ch:
+					case <-time.After(10 * time.Second):
+						w.wedged = true
+						return vs.Violf("C18/deadlock", "AddEventHandler did not return within 10 s")
+					}
+				}
+				w.subs[k1] = &c18Sub{ri: riB, handlers: []*c18Handler{hB}}
+				if inList {
+					c.Class("handler-added-during-initial-list")
+				}
+				poll(5*time.Second, func() bool { return riB.Informer().HasSynced() })
+				for _, it := range w.sim.ListAll(c18Name(res)) {
+					nm, _ := it["metadata"].(map[string]any)["name"].(string)
+					for _, h := range []*c18Handler{hA.c18Handler, hB} {
+						hh := h
+						if !poll(5*time.Second, func() bool { return hh.has(nm, "") }) {
+							return vs.Violf("C18/no-replay-on-add", "handler %s was added while the informer was delivering its first list; it never received %s, which is in the cache", hh.id, nm)
+						}
+					}
+				}
+				return nil
+			}})
+		}
 		for _, res := range c18Names(nRes) {
 			res := res
-			if len(w.handlersOn(res)) == 0 {
-				continue
+			if !heavyOps || len(w.handlersOn(res)) == 0 {
+				continue // (needs seconds per use because the informer backs off before listing again: random sequences only)
 			}
 			ops = append(ops, op{"watch of " + res + " breaks, an object is deleted meanwhile", func() error {
 				name := fmt.Sprintf("gone%d", step)
@@ -633,11 +700,11 @@ func TestVerifC18Exhaustive(t *testing.T) {
 	if vs.Tier() == "thorough" {
 		length = 5
 	}
-	vs.RunExhaustive(t, "C18", 2_000_000, func(c *vs.Case) error { return propC18(c, 2, 1, length) })
+	vs.RunExhaustive(t, "C18", 2_000_000, func(c *vs.Case) error { return propC18(c, 2, 1, length, false) })
 }
 
 func TestVerifC18Random(t *testing.T) {
-	vs.Run(t, "C18", func(c *vs.Case) error { return propC18(c, 2+c.Int(2), 1+c.Int(3), 4+c.Int(14)) })
+	vs.Run(t, "C18", func(c *vs.Case) error { return propC18(c, 2+c.Int(2), 1+c.Int(3), 4+c.Int(14), true) })
 }
 
 // Concurrent variant (run under the race detector): every subscriber works from
